@@ -1286,7 +1286,8 @@ def run_c15(ctx):
         raise pv.ToolError("MC_Cost grow: expected counterexample not produced:\n" + r.stdout[-1500:])
     # (B) supervised, unguarded replay: 1 GiB address space, 6 s per case
     cs = []
-    sel = cases if not q else [c for i, c in enumerate(cases) if c["predict"] == "unbounded" or i % 4 == 0]
+    sel = cases if not q else [c for i, c in enumerate(cases) if c["predict"] == "unbounded" or i % 4 == 0
+                               or (c["pre"]["exec"] and str(c["pre"]["exec"][0].get("v", "")).startswith("LIST.NEIGHBOR"))]
     for i, c in enumerate(sel):
         pre = c["pre"]
         if pre.get("bind") == []:
